@@ -58,7 +58,7 @@ def hosts(tier: str) -> t.Dict[str, dict]:
 def configs(tier: str) -> t.List[dict]:
     q = tier == 'quick'
     out = []
-    for attempts in ([None, 1, 2, 3]):
+    for attempts in ([None, 0, 1, 2, 3]):      # 0 is falsy: the engine documents 'attempts or 1'
         for delay in ([None, 0.5] if q else [None, 0, 0.5]):
             for exceptions in ([None, ['E1']] if q else [None, ['E1'], ['E1', 'E2']]):
                 for use_default in (False, True):
